@@ -483,6 +483,14 @@ class Builder:
                         c.doc = None if c.doc is not None else [f"{{L{c.uid}.90}} doccomment of the repeated command"]
                         if c.kind in ("generic", "plain"):
                             c.kind = "generic" if c.doc is not None else "plain"
+                    if c.kind in ("function", "macro") and self.allow_cpa and self.rng.random() < 0.4:
+                        # the repeated definition differs from the first one only inside its body: this one parses keyword
+                        # arguments, the first one does not (or the other way round)
+                        from .modgen import own_body_has_cpa
+                        if own_body_has_cpa(c):
+                            c.body = [b_ for b_ in (c.body or []) if b_.kind != "cpa"]
+                        else:
+                            c.body = list(c.body or []) + [self.cpa()]
                     extra.append(c)
                     self.clones += 1
             for c in extra:
